@@ -208,6 +208,12 @@ func (c *connection) onProcess(onConnect OnConnect, onRequest OnRequest) (proces
 				}
 			}
 			c.unlock(connecting)
+			// The poller's onDisconnect gives up when it cannot take the connecting lock
+			// and relies on the help above. If the hang-up landed after the IsActive
+			// check and before the unlock, nobody has run OnDisconnect yet.
+			if !c.IsActive() {
+				c.onDisconnect()
+			}
 		}
 	START:
 		// The `onRequest` must be executed at least once if conn have any readable data,
